@@ -68,6 +68,16 @@ def harness_cfg(chain):
                 spendable_msat=2000000000, receivable_msat=2000000000, dup_pay="cln", swap_vout=0, retransmit=False)
 
 
+def closure_of(s):
+    chain = s["cfg"]["chain"]
+    w, csv = (504, 1008) if chain == "btc" else (60, 10080)
+    blk = lambda n, incl: dict(a="block", chain=chain, n=n, incl=(["all"] if incl else []))
+    steps = [dict(a="tick", m=10), dict(a="htlc", sid="s1", kind="settle"), dict(a="htlc", sid="s2", kind="settle"), blk(3, True), blk(w, False),
+             blk(csv + 1, True), dict(a="restart"), dict(a="tick", m=10), blk(3, True), blk(csv + 1, True), dict(a="tick", m=10), dict(a="restart"),
+             blk(3, True), blk(csv + 1, True)]
+    return dict(name=s["name"] + ":closed", cfg=s["cfg"], steps=list(s["steps"]) + steps, closed=True)
+
+
 def run_all(tier):
     """Shared run for all properties of this engine; cached per (tree, spec, harness, tier, seed)."""
     key = "%s-%s-%d" % (tree_hash(), tier, vp.seed())
@@ -110,6 +120,11 @@ def run_all(tier):
             byc.setdefault(c, set()).update("\x00".join(st[:k]) for k in range(1, len(st)))
         scheds = [s for s, (c, st) in zip(uniq, keys) if "\x00".join(st) not in byc[c]]
         exported = len(uniq)
+        # C16 / C06c / C07c (bounded liveness on the code): every maximal schedule is also run with the FAIR CLOSURE appended -
+        # the peer stays silent, time passes, pending HTLCs resolve, the chain advances past every deadline, services succeed,
+        # the node is restarted once - after which every swap must be terminal and its channel released (checked at `end`).
+        nmodel = len(scheds)
+        scheds = scheds + [closure_of(s) for s in scheds]
         sp = os.path.join(wd, "schedules.ndjson")
         with open(sp, "w") as f:
             for s in scheds:
@@ -124,6 +139,25 @@ def run_all(tier):
         for p in glob.glob(os.path.join(sd, "v", "*.json")):
             j = json.load(open(p))
             v["viol"] += [dict(t=j["t"], seq=x["seq"], sig=x["sig"]) for x in j["viol"]]
+        # C22: the maker schedules once more with REAL-TIME retransmission (interval 2 ms, 12 ms between environment steps)
+        rsched = [dict(s, cfg=dict(s["cfg"], retransmit=True)) for s in scheds[:nmodel]
+                  if s["cfg"]["chain"] == "btc" and ("in_sender" in s["name"] or "out_receiver" in s["name"]) and "crash" not in s["name"]][:400 if tier == "quick" else 3000]
+        rp = os.path.join(wd, "rschedules.ndjson")
+        with open(rp, "w") as f:
+            for s in rsched:
+                f.write(json.dumps(s) + "\n")
+        rtrace = os.path.join(wd, "rtrace.ndjson")
+        nodes = tempfile.mkdtemp(prefix="verif-nodes-", dir="/dev/shm" if os.path.isdir("/dev/shm") else None)
+        vp.run([binp, "-schedules", rp, "-out", rtrace, "-workers", str(vp.NCPU), "-tmp", nodes, "-retransmit", "2ms"], timeout=3000)
+        shutil.rmtree(nodes, ignore_errors=True)
+        shutil.rmtree(os.path.join(sd, "v"), ignore_errors=True)
+        os.makedirs(os.path.join(sd, "v"))
+        rv = vp.validate_trace("PeerSwapTrace", "PeerSwapTrace.cfg", sd, rtrace, timeout=3000)
+        rviol = []
+        for p in glob.glob(os.path.join(sd, "v", "*.json")):
+            j = json.load(open(p))
+            rviol += [dict(t=j["t"], seq=x["seq"], sig=x["sig"]) for x in j["viol"] if x["sig"].startswith("C22|")]
+        nretx = sum(1 for ln in open(rtrace) if '"ev":"send"' in ln and '"nth":1,' not in ln)
         # per-trace comparison model <-> code (strict conformance, informational)
         last, observed = {}, {}
         nev = 0
@@ -135,7 +169,7 @@ def run_all(tier):
         for x in v["viol"]:
             observed.setdefault(x["t"], set()).add(x["sig"])
         drift = []
-        for i, s in enumerate(scheds):
+        for i, s in enumerate(scheds[:nmodel]):
             q = last.get(i + 1)
             got = sorted([d["sid"], d["role"], d["cur"]] for d in q["disk"]) if q else None
             exp = sorted(s.get("expect_disk", []))
@@ -149,7 +183,10 @@ def run_all(tier):
         for x in v["viol"]:
             s = scheds[x["t"] - 1]
             viols.append(dict(sig=x["sig"], t=x["t"], seq=x["seq"], name=s["name"], schedule=dict(name=s["name"], cfg=s["cfg"], steps=s["steps"])))
-        out = dict(key=key, tier=tier, models=results, nschedules=len(scheds), nexported=exported, nevents=nev, viol=viols,
+        for x in rviol:
+            s = rsched[x["t"] - 1]
+            viols.append(dict(sig=x["sig"], t=x["t"], seq=x["seq"], name=s["name"] + ":retransmit", schedule=dict(name=s["name"], cfg=s["cfg"], steps=s["steps"], psim_flags="-retransmit 2ms")))
+        out = dict(key=key, retransmit=dict(schedules=len(rsched), events=rv["n"], retransmitted_copies=nretx), tier=tier, models=results, nschedules=len(scheds), nexported=exported, nclosed=len(scheds) - nmodel, nevents=nev, viol=viols,
                    drift=drift[:50], ndrift=len(drift), wall=round(time.time() - t0, 1),
                    states=sum(r["distinct"] for r in results.values()), transitions=sum(r["generated"] for r in results.values()),
                    samples=[dict(name=s["name"], steps=s["steps"]) for s in random.Random(vp.seed()).sample(scheds, min(3, len(scheds)))],
